@@ -75,8 +75,8 @@ def _r031(ctx: Ctx) -> None:
     m = ctx.model
     mi, fn = m.func('panqec.bpauli', 'bs_prod')
     site = site_of(mi, fn)
-    n = 2
-    shapes = [None, 1, 2]
+    n = 3 if ctx.tier == 'thorough' else 2
+    shapes = [None, 1, 2, 3] if ctx.tier == 'thorough' else [None, 1, 2]
     reprs = ['dense', 'sparse', 'list']
     for ra, rb in itertools.product(shapes, shapes):
         for ka, kb in itertools.product(reprs, reprs):
